@@ -21,24 +21,24 @@ package transpiler
 //@   flag checks=-index,-assert
 //@   check a-single-pseudo-label-matcher-is-not-dropped: result1 == nil && len(matchers.globalMatchers) > 0 && len(matchers.kvMatchers) == 0 ==> len(whereArgs) == 1 && andOfAll(whereArgs[0], matchers.globalMatchers)
 //@   at sql_select.Or$ pseudo-label-matchers-are-in-place-before-the-label-matchers: len(matchers.globalMatchers) > 0 ==> len(whereArgs) == 1 && andOfAll(whereArgs[0], matchers.globalMatchers)
-//@   at sql_select.Ge lower-date-covers-window-start: isDateCol(arg0) ==> fmtDay <= fdiv(ctx.From.UnixNano(), 86400000000000)
-//@   at sql_select.Le upper-date-covers-window-end: isDateCol(arg0) ==> fmtDay >= fdiv(ctx.To.UnixNano(), 86400000000000)
+//@   at sql_select.Ge lower-date-covers-window-start: isDateCol(arg0) ==> dayOfDateText(unbox(arg1, "*sql.StringVal").val) <= fdiv(ctx.From.UnixNano(), 86400000000000)
+//@   at sql_select.Le upper-date-covers-window-end: isDateCol(arg0) ==> dayOfDateText(unbox(arg1, "*sql.StringVal").val) >= fdiv(ctx.To.UnixNano(), 86400000000000)
 //@ func (*GenericLabelsPlanner)._process [C13]
 //@   flag checks=-index,-assert
-//@   at sql_select.Ge lower-date-covers-window-start: isDateCol(arg0) ==> fmtDay <= fdiv(ctx.From.UnixNano(), 86400000000000)
-//@   at sql_select.Le upper-date-covers-window-end: isDateCol(arg0) ==> fmtDay >= fdiv(ctx.To.UnixNano(), 86400000000000)
+//@   at sql_select.Ge lower-date-covers-window-start: isDateCol(arg0) ==> dayOfDateText(unbox(arg1, "*sql.StringVal").val) <= fdiv(ctx.From.UnixNano(), 86400000000000)
+//@   at sql_select.Le upper-date-covers-window-end: isDateCol(arg0) ==> dayOfDateText(unbox(arg1, "*sql.StringVal").val) >= fdiv(ctx.To.UnixNano(), 86400000000000)
 //@ func (*AllTimeSeriesSelectPlanner).Process [C13]
 //@   flag checks=-index,-assert
-//@   at sql_select.Ge lower-date-covers-window-start: isDateCol(arg0) ==> fmtDay <= fdiv(ctx.From.UnixNano(), 86400000000000)
-//@   at sql_select.Le upper-date-covers-window-end: isDateCol(arg0) ==> fmtDay >= fdiv(ctx.To.UnixNano(), 86400000000000)
+//@   at sql_select.Ge lower-date-covers-window-start: isDateCol(arg0) ==> dayOfDateText(unbox(arg1, "*sql.StringVal").val) <= fdiv(ctx.From.UnixNano(), 86400000000000)
+//@   at sql_select.Le upper-date-covers-window-end: isDateCol(arg0) ==> dayOfDateText(unbox(arg1, "*sql.StringVal").val) >= fdiv(ctx.To.UnixNano(), 86400000000000)
 //@ func (*TimeSeriesSelectPlanner).Process [C13]
 //@   flag checks=-index,-assert
-//@   at sql_select.Ge lower-date-covers-window-start: isDateCol(arg0) ==> fmtDay <= fdiv(ctx.From.UnixNano(), 86400000000000)
-//@   at sql_select.Le upper-date-covers-window-end: isDateCol(arg0) ==> fmtDay >= fdiv(ctx.To.UnixNano(), 86400000000000)
+//@   at sql_select.Ge lower-date-covers-window-start: isDateCol(arg0) ==> dayOfDateText(unbox(arg1, "*sql.StringVal").val) <= fdiv(ctx.From.UnixNano(), 86400000000000)
+//@   at sql_select.Le upper-date-covers-window-end: isDateCol(arg0) ==> dayOfDateText(unbox(arg1, "*sql.StringVal").val) >= fdiv(ctx.To.UnixNano(), 86400000000000)
 //@ func (*GetLabelsPlanner).Process [C13]
 //@   flag checks=-index,-assert
-//@   at sql_select.Ge lower-date-covers-window-start: isDateCol(arg0) ==> fmtDay <= fdiv(ctx.From.UnixNano(), 86400000000000)
-//@   at sql_select.Le upper-date-covers-window-end: isDateCol(arg0) ==> fmtDay >= fdiv(ctx.To.UnixNano(), 86400000000000)
+//@   at sql_select.Ge lower-date-covers-window-start: isDateCol(arg0) ==> dayOfDateText(unbox(arg1, "*sql.StringVal").val) <= fdiv(ctx.From.UnixNano(), 86400000000000)
+//@   at sql_select.Le upper-date-covers-window-end: isDateCol(arg0) ==> dayOfDateText(unbox(arg1, "*sql.StringVal").val) >= fdiv(ctx.To.UnixNano(), 86400000000000)
 
 // A Pyroscope label matcher: = and != compare the field with the value, =~ asks for
 // "match(field, value) == 1" and !~ for "match(field, value) != 1" - the negative
